@@ -1,5 +1,407 @@
 /-
-  Props/C07.lean — property theorems for C07 (stub; to be filled in).
+  Props/C07.lean — key-renaming mappers apply consistently in both directions at every level.
+
+  All theorems are about the model `Sem/Mappers.lean` (tied to /repo by the `mapper` correspondence
+  suite) and quantify over all string functions `S` (camelCase / upper / split are opaque), all class
+  trees, all mapper lists of any length, all instances of any nesting depth.
+
+  What the code violates (kept in the model, see the counterexample theorems and known findings):
+    * `fallback-capture`   — `get_processed_input` falls back to the unmapped field name;
+    * `dns-blocks-deserialize` — a class with a `DoNotSerialize` entry cannot be deserialized at all;
+    * `nested-resync`      — the deserializer re-aggregates a nested class's mappers from the override
+      it is handed and can resolve different keys than the serializer used.
+  `C07_statement` is the full-strength round trip; `mapper_round_trip` is the `_partial` theorem whose
+  decidable hypotheses (`levelOK` at every level) exclude exactly these regions.
 -/
+import TypedpyModel.Lemmas.Mappers
 namespace Typedpy.C07
+open Typedpy.Mappers
+
+/-! ### aggregation: dict-of-dicts algorithm = pointwise composition on the current key -/
+
+/-- The entry of field `f` in the aggregated mapper — for serialization and for deserialization alike,
+    for every class, every mapper list (any inheritance depth, explicit override, `camel_case_convert`)
+    — is the composition `keyOf` of the mappers on the *current* key. -/
+theorem agg_field_pointwise (S : StrFns) (b : Bool) (own : List Mapper) (fs : List Fld)
+    (ov : Option MDict) (camel : Bool) (f : String) :
+    lookupR (.fld f) (aggregate S b own fs ov camel) =
+      if fs.any (fun fl => fl.name == f) then some (keyOf S (effList own ov camel) f) else none := by
+  unfold aggregate keyOf
+  rw [lookupR_foldAdd_fld, lookupR_baseFields]
+  split <;> rfl
+
+/-- serializer and deserializer resolve every field of the top-level class to the same entry -/
+theorem ser_deser_same_field_keys (S : StrFns) (own : List Mapper) (fs : List Fld)
+    (ov : Option MDict) (camel : Bool) (f : String) :
+    lookupR (.fld f) (aggregate S true own fs ov camel)
+      = lookupR (.fld f) (aggregate S false own fs ov camel) := by
+  rw [agg_field_pointwise, agg_field_pointwise]
+
+/-! ### key-set law -/
+
+/-- One level: the key list of a serialized object is exactly the image of the populated fields under
+    the resolved mapper, fields mapped to `DoNotSerialize` left out (as lists, in instance order). -/
+theorem ser_keys_eq_image (S : StrFns) (camel : Bool) (m : MDict) (kvs : List (String × J)) :
+    (serFields S camel m kvs).map (·.1) = imageKeys S camel m kvs :=
+  serFields_keys S camel m kvs
+
+mutual
+/-- Every level: the serialized document obeys the key-set law at every nesting depth, nested
+    structures (directly or inside lists) under their `"<field>._mapper"` entry. -/
+theorem ser_keys_every_level (S : StrFns) (camel : Bool) :
+    ∀ (x : J) (m : MDict), keysLaw S camel m x (ser S camel m x) = true
+  | .null, m => by simp [ser, keysLaw, J.isNull]
+  | .int i, m => by simp [ser, keysLaw]
+  | .str s, m => by simp [ser, keysLaw]
+  | .arr xs, m => by
+    simp only [ser, keysLaw]
+    exact list_law S camel xs m
+  | .obj kvs, m => by
+    simp only [ser, keysLaw, serFields_keys, beq_self_eq_true, Bool.true_and]
+    exact fields_law S camel kvs m
+theorem fields_law (S : StrFns) (camel : Bool) :
+    ∀ (kvs : List (String × J)) (m : MDict), fieldsLaw S camel m kvs (serFields S camel m kvs) = true
+  | [], m => by simp [serFields, fieldsLaw]
+  | (f, v) :: rest, m => by
+    have ih := fields_law S camel rest m
+    simp only [serFields, fieldsLaw]
+    cases hv : v.isNull
+    · cases hk : serKey S camel m f
+      · simpa using ih
+      · simp only [Bool.false_eq_true, ↓reduceIte, Option.isNone_some, Bool.or_self]
+        simp [ih, ser_keys_every_level S camel v (subSer m f)]
+    · simpa using ih
+theorem list_law (S : StrFns) (camel : Bool) :
+    ∀ (xs : List J) (m : MDict), listLaw S camel m xs (serList S camel m xs) = true
+  | [], m => by simp [serList, listLaw]
+  | x :: xs, m => by
+    simp [serList, listLaw, ser_keys_every_level S camel x m, list_law S camel xs m]
+end
+
+/-- a field mapped to `DoNotSerialize` contributes no key -/
+theorem dropped_absent (S : StrFns) (camel : Bool) (m : MDict) (f : String) (v : J)
+    (rest : List (String × J)) (h : lookupR (.fld f) m = some .dns) :
+    serFields S camel m ((f, v) :: rest) = serFields S camel m rest := by
+  have : serKey S camel m f = none := by simp [serKey, h]
+  simp only [serFields, this]
+  split <;> rfl
+
+/-- No collision: when the image keys are pairwise distinct, every populated, not dropped field is
+    found in the document under its own key with its own serialized value. -/
+theorem no_collision_if_injective (S : StrFns) (camel : Bool) (m : MDict) (kvs : List (String × J))
+    (hinj : nodupB (imageKeys S camel m kvs) = true) (f k : String) (v : J)
+    (hm : (f, v) ∈ kvs) (hv : v.isNull = false) (hk : serKey S camel m f = some k) :
+    lookupR k (serFields S camel m kvs) = some (ser S camel (subSer m f) v) := by
+  apply lookupR_of_mem
+  · rw [serFields_keys]; exact hinj
+  · exact mem_serFields S camel m f k v hv hk kvs hm
+
+/-! ### round trip -/
+
+theorem scalar_step (S : StrFns) (camel : Bool) (m : MDict) (n : String) (opt : Bool) (v : J)
+    (rest : List (String × J)) (h : scalarOK opt v = true) :
+    dScalar n opt (.ok (if v.isNull then .null else ser S camel m v)) (.ok rest) = .ok ((n, v) :: rest) := by
+  cases v <;> simp_all [scalarOK, dScalar, J.isNull, ser]
+
+/-- a list of structures, each of which round-trips -/
+theorem many_step (S : StrFns) (camel : Bool) (m : MDict) (g : J → DR J) (P : J → Bool)
+    (hg : ∀ y, P y = true → g (ser S camel m y) = .ok y) :
+    ∀ xs : List J, xs.all P = true → mapD g (serList S camel m xs) = .ok xs
+  | [], _ => by simp [serList, mapD]
+  | x :: xs, h => by
+    simp only [List.all_cons, and_true_iff'] at h
+    simp [serList, mapD, hg x h.1, many_step S camel m g P hg xs h.2]
+
+theorem nested_step (S : StrFns) (camel : Bool) (m : MDict) (n : String) (opt : Bool) (shape : Shape)
+    (g : J → DR J) (P : J → Bool) (v : J) (rest : List (String × J))
+    (hg : ∀ y, P y = true → g (ser S camel m y) = .ok y)
+    (h : nestedOK opt shape P v = true) :
+    dNested n opt shape (.ok (if v.isNull then .null else ser S camel m v)) g (.ok rest)
+      = .ok ((n, v) :: rest) := by
+  cases v with
+  | null => simp_all [nestedOK, dNested, J.isNull]
+  | int i => simp [nestedOK] at h
+  | str s => simp [nestedOK] at h
+  | obj kvs =>
+    cases shape with
+    | many => simp [nestedOK] at h
+    | one =>
+      simp only [nestedOK] at h
+      have := hg _ h
+      simp only [ser] at this
+      simp [dNested, J.isNull, ser, this]
+  | arr xs =>
+    cases shape with
+    | one => simp [nestedOK] at h
+    | many =>
+      simp only [nestedOK] at h
+      have := many_step S camel m g P hg xs h
+      simp [dNested, J.isNull, ser, this]
+
+mutual
+/-- the deserializer, walking any suffix `fs` of the class's fields over the serialization of the whole
+    level `all`, rebuilds the corresponding suffix `sub` of the instance -/
+theorem rt_fields (S : StrFns) (camel : Bool) :
+    ∀ (fs : List Fld) (ms M : MDict) (strict : Bool) (all sub : List (String × J)),
+      levelOK S ms M strict all = true → (∀ p ∈ sub, p ∈ all) →
+      rtFields S camel (levelOK S) ms M fs sub = true →
+      deserFields S camel M strict (serFields S camel ms all) fs = .ok sub
+  | [], ms, M, strict, all, sub, _, _, h => by
+    cases sub with
+    | nil => simp [deserFields]
+    | cons p r => simp [rtFields] at h
+  | f :: fs, ms, M, strict, all, sub, hl, hsub, h => by
+    cases sub with
+    | nil => simp [rtFields] at h
+    | cons p rest =>
+      simp only [rtFields, and_true_iff'] at h
+      have ih := rt_fields S camel fs ms M strict all rest hl
+        (fun q hq => hsub q (List.mem_cons_of_mem _ hq)) h.2
+      simp only [deserFields]
+      rw [ih]
+      exact rt_fld S camel f ms M strict all p rest hl (hsub p (List.mem_cons_self ..)) h.1
+theorem rt_fld (S : StrFns) (camel : Bool) :
+    ∀ (f : Fld) (ms M : MDict) (strict : Bool) (all : List (String × J)) (p : String × J)
+      (rest : List (String × J)),
+      levelOK S ms M strict all = true → p ∈ all →
+      rtFld S camel (levelOK S) ms M f p = true →
+      deserFld S camel M strict (serFields S camel ms all) f (.ok rest) = .ok (p :: rest)
+  | .scalar n opt, ms, M, strict, all, (k, v), rest, hl, hm, h => by
+    simp only [rtFld, and_true_iff', beq_iff_eq] at h
+    obtain ⟨hk, hv⟩ := h
+    subst hk
+    simp only [deserFld]
+    rw [procInput_ser S camel ms M strict all hl k v hm]
+    exact scalar_step S camel _ k opt v rest hv
+  | .nested n opt shape own fs, ms, M, strict, all, (k, v), rest, hl, hm, h => by
+    simp only [rtFld, and_true_iff', beq_iff_eq] at h
+    obtain ⟨hk, hv⟩ := h
+    subst hk
+    simp only [deserFld]
+    rw [procInput_ser S camel ms M strict all hl k v hm]
+    refine nested_step S camel (subSer ms k) k opt shape _ _ v rest ?_ hv
+    intro y hy
+    cases y with
+    | obj kvs =>
+      simp only [rtObj, and_true_iff'] at hy
+      have := rt_fields S camel fs (subSer ms k) (aggregate S false own fs (subDeser M k) camel) false
+        kvs kvs hy.1 (fun q hq => hq) hy.2
+      simp [ser, dObj, this]
+    | null => simp [rtObj] at hy
+    | int i => simp [rtObj] at hy
+    | str s => simp [rtObj] at hy
+    | arr xs => simp [rtObj] at hy
+end
+
+/-- **Round trip (partial statement).**  For every class tree, every resolved serializer mapper `ms`,
+    every override / flags, every instance of any nesting depth: if at every level the hypotheses
+    `levelOK` hold (Sync incl. no `DoNotSerialize` entry, NoDot, populated keys distinct, absent keys
+    free, NoFallbackCapture unless strict), deserializing the serialized document gives back the
+    instance. -/
+theorem mapper_round_trip (S : StrFns) (camel : Bool) (c : Cls) (ms : MDict) (ov : Option MDict)
+    (strict : Bool) (x : J) (h : rtCls S camel (levelOK S) c ms ov strict x = true) :
+    deser S camel c ov strict (ser S camel ms x) = .ok x := by
+  cases x with
+  | obj kvs =>
+    simp only [rtCls, and_true_iff'] at h
+    have := rt_fields S camel c.fields ms (aggregate S false c.own c.fields ov camel) strict kvs kvs
+      h.1 (fun q hq => hq) h.2
+    simp [deser, ser, dObj, this]
+  | null => simp [rtCls] at h
+  | int i => simp [rtCls] at h
+  | str s => simp [rtCls] at h
+  | arr xs => simp [rtCls] at h
+
+/-- the same for the serializer's own aggregate: `Deserializer(cls, …).deserialize(Serializer(x, …).serialize(…)) == x` -/
+theorem mapper_round_trip_serialize (S : StrFns) (camel : Bool) (c : Cls) (ov : Option MDict)
+    (strict : Bool) (x : J)
+    (h : rtCls S camel (levelOK S) c (aggregate S true c.own c.fields ov camel) ov strict x = true) :
+    deser S camel c ov strict (serialize S camel c ov x) = .ok x :=
+  mapper_round_trip S camel c _ ov strict x h
+
+/-- the full-strength statement the property asks for: inside the demanded domain `levelDom` (no
+    populated field dropped, no dotted key, populated keys distinct and different from absent fields'
+    keys — at every level) the round trip holds.  FALSE for the code, see the counterexamples. -/
+def C07_statement : Prop :=
+  ∀ (S : StrFns) (camel : Bool) (c : Cls) (ov : Option MDict) (strict : Bool) (x : J),
+    rtCls S camel (levelDom S) c (aggregate S true c.own c.fields ov camel) ov strict x = true →
+    deser S camel c ov strict (serialize S camel c ov x) = .ok x
+
+/-! ### flat classes: everything but injectivity, NoDot and NoFallbackCapture is discharged -/
+
+def allScalar (fs : List Fld) : Bool := fs.all fun f => match f with | .scalar _ _ => true | _ => false
+
+/-- the instance lists exactly the fields of a flat class, in order, with integer / absent values -/
+def flatConf : List Fld → List (String × J) → Bool
+  | [], kvs => kvs.isEmpty
+  | f :: fs, kvs => (match kvs with
+    | [] => false
+    | p :: rest => (p.1 == f.name) && scalarOK f.opt p.2 && flatConf fs rest)
+
+theorem flat_rtFields (S : StrFns) (camel : Bool) (lv : LevelPred) (ms M : MDict) :
+    ∀ (fs : List Fld) (kvs : List (String × J)), allScalar fs = true → flatConf fs kvs = true →
+      rtFields S camel lv ms M fs kvs = true
+  | [], kvs, _, h => by simpa [rtFields, flatConf] using h
+  | f :: fs, kvs, hs, h => by
+    cases kvs with
+    | nil => simp [flatConf] at h
+    | cons p rest =>
+      simp only [allScalar, List.all_cons, and_true_iff'] at hs
+      simp only [flatConf, and_true_iff'] at h
+      cases f with
+      | nested n o sh own fs' => simp at hs
+      | scalar n o =>
+        simp only [rtFields, rtFld, and_true_iff']
+        exact ⟨⟨h.1.1, h.1.2⟩, flat_rtFields S camel lv ms M fs rest hs.2 h.2⟩
+
+theorem syncOK_top (S : StrFns) (own : List Mapper) (fs : List Fld) (ov : Option MDict) (camel : Bool)
+    (kvs : List (String × J))
+    (hk : ∀ p ∈ kvs, isKeyAt (aggregate S true own fs ov camel) p.1 = true) :
+    syncOK (aggregate S true own fs ov camel) (aggregate S false own fs ov camel) kvs = true := by
+  unfold syncOK
+  rw [List.all_eq_true]
+  intro p hp
+  have e := ser_deser_same_field_keys S own fs ov camel p.1
+  have h1 := hk p hp
+  have h2 : isKeyAt (aggregate S false own fs ov camel) p.1 = true := by
+    unfold isKeyAt at h1 ⊢; rw [← e]; exact h1
+  have h3 : kOf (aggregate S false own fs ov camel) p.1 = kOf (aggregate S true own fs ov camel) p.1 := by
+    unfold kOf; rw [e]
+  simp [h1, h2, h3]
+
+/-- **Flat classes, any hierarchy.**  For a class with scalar fields only and *any* list of mappers
+    (any inheritance depth, lists, enum mappers, override, `camel_case_convert`): if no field is mapped
+    to `DoNotSerialize`, no key is dotted, the populated keys are distinct and differ from absent
+    fields' keys, and no absent field's own name is a populated key (or `use_strict_mapping`), then
+    `deserialize(serialize(x)) = x`.  Sync is *proved* here, not assumed. -/
+theorem flat_round_trip (S : StrFns) (camel : Bool) (c : Cls) (ov : Option MDict) (strict : Bool)
+    (kvs : List (String × J))
+    (hflat : allScalar c.fields = true) (hconf : flatConf c.fields kvs = true)
+    (hkeys : ∀ p ∈ kvs, isKeyAt (aggregate S true c.own c.fields ov camel) p.1 = true)
+    (hdot : noDotOK S (aggregate S true c.own c.fields ov camel) kvs = true)
+    (hinj : injOK (aggregate S true c.own c.fields ov camel) kvs = true)
+    (habs : absentKeyOK (aggregate S true c.own c.fields ov camel) kvs = true)
+    (hcap : noCaptureOK (aggregate S true c.own c.fields ov camel) strict kvs = true) :
+    deser S camel c ov strict (serialize S camel c ov (.obj kvs)) = .ok (.obj kvs) := by
+  apply mapper_round_trip_serialize
+  simp only [rtCls, levelOK, and_true_iff']
+  exact ⟨⟨⟨⟨⟨syncOK_top S c.own c.fields ov camel kvs hkeys, hdot⟩, hinj⟩, habs⟩, hcap⟩,
+    flat_rtFields S camel _ _ _ c.fields kvs hflat hconf⟩
+
+/-! ### wrapper validation -/
+
+/-- An explicit mapper with a key whose first dotted component is not a field name is rejected when
+    the `Serializer` / `Deserializer` wrapper is built. -/
+theorem bad_mapper_key_rejected (S : StrFns) (names keys : List String) (k h : String) (t : List String)
+    (hk : k ∈ keys) (hs : S.split k = h :: t) (hn : h ∉ names) : wrapperOk S names keys = false := by
+  cases hw : wrapperOk S names keys with
+  | false => rfl
+  | true =>
+    unfold wrapperOk at hw
+    have := all_mem hw hk
+    simp only [hs] at this
+    exact absurd (by simpa using this) hn
+
+/-- conversely a mapper whose keys all start with field names is accepted -/
+theorem good_mapper_keys_accepted (S : StrFns) (names keys : List String)
+    (h : ∀ k ∈ keys, ∃ hd t, S.split k = hd :: t ∧ hd ∈ names) : wrapperOk S names keys = true := by
+  unfold wrapperOk
+  rw [List.all_eq_true]
+  intro k hk
+  obtain ⟨hd, t, hs, hm⟩ := h k hk
+  simp [hs, hm]
+
+/-! ### kernel-checked counterexamples (the known findings) and non-vacuity -/
+
+/-- string functions without any string computation: enough for the counterexamples -/
+def idFns : StrFns := ⟨id, id, fun s => [s]⟩
+
+def swCls : Cls := ⟨[.dict [(.fld "a", .key "b"), (.fld "b", .key "a")]], [.scalar "a" true, .scalar "b" false]⟩
+def swInst : J := .obj [("a", .null), ("b", .int 2)]
+
+def isOkEq (r : DR J) (f : J → Bool) : Bool := match r with | .ok y => f y | .error _ => false
+def isErr (r : DR J) : Bool := match r with | .ok _ => false | .error _ => true
+def fieldIs (n : String) (i : Int) (y : J) : Bool :=
+  match y with
+  | .obj kvs => (match lookupR n kvs with | some (.int j) => i == j | _ => false)
+  | _ => false
+
+/-- finding `fallback-capture`: mapper `{'a':'b','b':'a'}`, `a` optional and absent: `Sw(b=2)` is in
+    the demanded domain (injective, nothing dropped, no dot), serializes to `{'a': 2}` and deserializes
+    to `Sw(a=2, b=2)`. -/
+theorem fallback_capture_counterexample :
+    rtCls idFns false (levelDom idFns) swCls (aggregate idFns true swCls.own swCls.fields none false)
+        none false swInst = true
+    ∧ isOkEq (.ok (serialize idFns false swCls none swInst))
+        (fun d => match d with | .obj [("a", .int 2)] => true | _ => false) = true
+    ∧ isOkEq (deser idFns false swCls none false (serialize idFns false swCls none swInst))
+        (fun y => fieldIs "a" 2 y && fieldIs "b" 2 y) = true := by
+  decide
+
+/-- with `use_strict_mapping` the same instance round-trips (the hypotheses of `mapper_round_trip`
+    hold and are not vacuous) -/
+theorem strict_mapping_no_capture_example :
+    rtCls idFns false (levelOK idFns) swCls (aggregate idFns true swCls.own swCls.fields none false)
+        none true swInst = true
+    ∧ isOkEq (deser idFns false swCls none true (serialize idFns false swCls none swInst))
+        (fun y => fieldIs "b" 2 y && !fieldIs "a" 2 y) = true := by
+  decide
+
+def dnCls : Cls := ⟨[.dict [(.fld "a", .dns)]], [.scalar "a" true, .scalar "b" false]⟩
+
+/-- finding `dns-blocks-deserialize`: `a` mapped to `DoNotSerialize`, optional and absent — no field
+    is dropped, the instance is in the demanded domain, yet deserialization raises. -/
+theorem dns_blocks_deserialize_counterexample :
+    rtCls idFns false (levelDom idFns) dnCls (aggregate idFns true dnCls.own dnCls.fields none false)
+        none false swInst = true
+    ∧ isErr (deser idFns false dnCls none false (serialize idFns false dnCls none swInst)) = true := by
+  decide
+
+/-- `upper` on the three keys of the example -/
+def upFns : StrFns :=
+  ⟨id, fun s => if s = "m" then "M" else if s = "g" then "G" else if s = "z" then "Z"
+      else if s = "b" then "B" else s, fun s => [s]⟩
+
+def gFlds : List Fld := [.scalar "a" false, .scalar "b" false]
+def midFlds : List Fld := [.nested "g" false .one [.dict [(.fld "a", .key "z")]] gFlds]
+def topCls : Cls := ⟨[.lower], [.nested "m" false .one [] midFlds]⟩
+def topInst : J := .obj [("m", .obj [("g", .obj [("a", .int 1), ("b", .int 2)])])]
+
+/-- finding `nested-resync`: `Top(TO_LOWERCASE) → Mid → G({'a':'z'})`: the serializer writes `G.a`
+    under `Z`; the deserializer, re-aggregating `G`'s own mapper under the override it was handed,
+    looks for `z`, and the required field is missing. -/
+theorem nested_resync_counterexample :
+    rtCls upFns false (levelDom upFns) topCls (aggregate upFns true topCls.own topCls.fields none false)
+        none false topInst = true
+    ∧ isErr (deser upFns false topCls none false (serialize upFns false topCls none topInst)) = true := by
+  decide
+
+/-- the full-strength statement is false of the model (and, by correspondence, of the code) -/
+theorem C07_statement_false : ¬ C07_statement := by
+  intro h
+  have h1 := fallback_capture_counterexample
+  have h2 := h idFns false swCls none false swInst h1.1
+  have h3 := h1.2.2
+  rw [h2] at h3
+  revert h3
+  decide
+
+def rtCls2 : Cls :=
+  ⟨[.dict [(.fld "a", .key "k"), (.nest "n", .sub [(.fld "p", .key "q")])], .lower],
+   [.scalar "a" false, .scalar "o" true,
+    .nested "n" false .many [.dict [(.fld "p", .key "r")]] [.scalar "p" false, .scalar "s" true]]⟩
+def rtInst2 : J :=
+  .obj [("a", .int 1), ("o", .null),
+        ("n", .arr [.obj [("p", .int 3), ("s", .null)], .obj [("p", .int 4), ("s", .int 5)]])]
+
+/-- non-vacuity: a two-level hierarchy with a dict mapper, a nested `._mapper` entry, an enum mapper
+    and a list of nested structures satisfies every hypothesis of `mapper_round_trip`, and the
+    serialized keys are the renamed ones -/
+theorem round_trip_example :
+    rtCls upFns false (levelOK upFns) rtCls2 (aggregate upFns true rtCls2.own rtCls2.fields none false)
+        none false rtInst2 = true
+    ∧ imageKeys upFns false (aggregate upFns true rtCls2.own rtCls2.fields none false)
+        [("a", .int 1), ("o", .null), ("n", .arr [])] = ["k", "n"] := by
+  decide
+
 end Typedpy.C07
